@@ -161,9 +161,11 @@ def run_property(prop: str, tier: str, jobs: int = 16, only: Optional[str] = Non
     # Replay: every counterexample is re-run against the unmodified code; one VIOLATION
     # line per distinct kind (first reproducing cell), the other cells are listed with it.
     from concurrent.futures import ThreadPoolExecutor
+    # every counterexample cell is replayed (capped at 48 per kind): a kind counts as reproduced
+    # if ANY of its cells reproduces; it is a harness error only if none does
     todo = [(kind, r, write_replay(prop, r.name, r.counterexample, r.kind, tier))
-            for kind, rs in sorted(by_kind.items()) for r in rs[:3]]
-    with ThreadPoolExecutor(max_workers=8) as ex:
+            for kind, rs in sorted(by_kind.items()) for r in rs[:48]]
+    with ThreadPoolExecutor(max_workers=12) as ex:
         outs = list(ex.map(lambda t: run_replay(t[2]), todo))
     reproduced_kinds = set()
     for (kind, r, path), (rc, out) in zip(todo, outs):
